@@ -183,8 +183,9 @@ package vnet
 //@   ensures [inv] n.inv() && n.udpPortCounter == old(n.udpPortCounter)
 //@   ensures [exact] (m != nil) == (old(oKey in n.outboundMap) && !(tLook > old(n.outboundMap[oKey].expires)))
 //@   ensures [hit] m != nil ==> m == old(n.outboundMap[oKey]) && (oKey in n.outboundMap) && n.outboundMap[oKey] == m &&
-//@            m.expires >= tLook + n.natType.MappingLifeTime
+//@            m.expires >= tLook + n.natType.MappingLifeTime && m.expires <= clock + n.natType.MappingLifeTime
 //@   ensures [miss] m == nil ==> !(oKey in n.outboundMap)
+//@   ensures [otherlife] forall x *mapping :: {x.expires} x != m ==> x.expires == old(x.expires)
 //@   ensures [expired] forall k string :: {k in n.inboundMap} old(k in n.inboundMap) && !(k in n.inboundMap) ==> tLook > old(n.inboundMap[k].expires)
 //@   ensures [keep] (forall k string :: {k in n.outboundMap} (k in n.outboundMap) ==> old(k in n.outboundMap) && n.outboundMap[k] == old(n.outboundMap[k])) &&
 //@            (forall k string :: {k in n.inboundMap} (k in n.inboundMap) ==> old(k in n.inboundMap) && n.inboundMap[k] == old(n.inboundMap[k]))
@@ -206,6 +207,29 @@ package vnet
 //@   loop 1 invariant [keep] (forall k string :: {k in n.outboundMap} (k in n.outboundMap) ==> old(k in n.outboundMap) && n.outboundMap[k] == old(n.outboundMap[k])) &&
 //@            (forall k string :: {k in n.inboundMap} (k in n.inboundMap) ==> old(k in n.inboundMap) && n.inboundMap[k] == old(n.inboundMap[k]))
 
+// The NAT a router builds carries the configured behaviours (C02/C03: "the configured mapping / filtering behaviour").
+//@ func newNAT(config *natConfig) (n *networkAddressTranslator, err error)
+//@   requires config != nil
+//@   ensures [napt] config.natType.Mode != NATModeNAT1To1 ==> err == nil && n != nil && fresh(n) && n.natType.Mode == NATModeNormal &&
+//@            n.natType.MappingBehavior == config.natType.MappingBehavior && n.natType.FilteringBehavior == config.natType.FilteringBehavior &&
+//@            (config.natType.MappingLifeTime != 0 ==> n.natType.MappingLifeTime == config.natType.MappingLifeTime) &&
+//@            n.outboundMap != nil && n.inboundMap != nil && n.outboundMap != n.inboundMap
+//@   ensures [oneToOne] err == nil ==> n != nil
+// the address list of an interface holds real address objects (never an interface value wrapping a nil pointer)
+//@ extern func (ifc *transport.Interface) Addrs() (addrs []net.Addr, err error)
+//@   pure
+//@   ensures err == nil ==> len(addrs) > 0
+//@   ensures forall i mathint :: {addrs[i]} 0 <= i && i < len(addrs) ==> addrs[i] != nil && ptr(addrs[i], *net.IPNet) != nil
+//@ trusted func (r *Router) getInterface(ifName string) (ifc *transport.Interface, err error)
+//@   pure
+//@   ensures err == nil ==> ifc != nil
+//@ func (r *Router) setRouter(parent *Router) (err error)
+//@   requires parent != nil && r.resolver != nil && parent.resolver != nil
+//@   modifies r.parent, r.resolver.parent, r.natType, r.nat
+//@   loop 1 invariant [scan] 0 <= rangeindex + 1 && rangeindex < len(addrs)
+//@   ensures [natconfig] err == nil && old(r.natType) != nil && old(r.natType.Mode) != NATModeNAT1To1 ==> r.nat != nil &&
+//@            r.nat.natType.MappingBehavior == old(r.natType.MappingBehavior) && r.nat.natType.FilteringBehavior == old(r.natType.FilteringBehavior)
+
 // Outbound translation in NAPT mode (C02).  k = the mapping key of the datagram; tLook = the clock value of the lookup.
 //@ func (n *networkAddressTranslator) translateOutbound(from Chunk) (to Chunk, err error)
 //@   requires from != nil && n.natType.Mode == NATModeNormal && len(n.mappedIPs) > 0 && n.natType.MappingLifeTime >= 0 &&
@@ -223,6 +247,7 @@ package vnet
 //@            n.outboundMap[n.okey(chSrc[ref(from)], n.boundOf(from))] == atlock(n.outboundMap[n.okey(chSrc[ref(from)], n.boundOf(from))]) &&
 //@            chSrc[ref(to)] == atlock(n.outboundMap[n.okey(chSrc[ref(from)], n.boundOf(from))].mapped) &&
 //@            n.outboundMap[n.okey(chSrc[ref(from)], n.boundOf(from))].expires >= tLook + n.natType.MappingLifeTime
+//@   ensures [lifetime] to != nil ==> n.outboundMap[n.okey(chSrc[ref(from)], n.boundOf(from))].expires <= clock + n.natType.MappingLifeTime
 //@   ensures [local] to != nil ==> n.outboundMap[n.okey(chSrc[ref(from)], n.boundOf(from))].local == chSrc[ref(from)] &&
 //@            n.outboundMap[n.okey(chSrc[ref(from)], n.boundOf(from))].bound == n.boundOf(from)
 //@   ensures [permit] to != nil ==> (n.fkeyOut(from) in n.outboundMap[n.okey(chSrc[ref(from)], n.boundOf(from))].filters)
@@ -788,9 +813,9 @@ package vnet
 
 // (translateInbound belongs to C02 as well: inbound traffic alone never prolongs a mapping, clause [norefresh])
 // the router applies the translation on the way out and in
-//@ property C02: networkAddressTranslator.translateOutbound, networkAddressTranslator.findOutboundMapping, networkAddressTranslator.allocUDPPort, networkAddressTranslator.removeMapping, networkAddressTranslator.translateInbound, Router.processChunks, Router.onInboundChunk
+//@ property C02: networkAddressTranslator.translateOutbound, networkAddressTranslator.findOutboundMapping, networkAddressTranslator.allocUDPPort, networkAddressTranslator.removeMapping, networkAddressTranslator.translateInbound, Router.processChunks, Router.onInboundChunk, newNAT, Router.setRouter
 // permissions consulted by the inbound filter are recorded by translateOutbound
-//@ property C03: networkAddressTranslator.translateInbound, networkAddressTranslator.removeMapping, networkAddressTranslator.translateOutbound, networkAddressTranslator.findOutboundMapping, Router.onInboundChunk
+//@ property C03: networkAddressTranslator.translateInbound, networkAddressTranslator.removeMapping, networkAddressTranslator.translateOutbound, networkAddressTranslator.findOutboundMapping, Router.onInboundChunk, newNAT, Router.setRouter
 //@ property C14: chunkQueue.push, chunkQueue.pop, chunkQueue.peek, DelayFilter.onInboundChunk, DelayFilter.Run, Router.push, Router.processChunks, Router.AddChunkFilter
 //@ property C15: TokenBucketFilter.refillTokens, TokenBucketFilter.drainQueue, TokenBucketFilter.run, TokenBucketFilter.onInboundChunk, chunkQueue.push, chunkQueue.pop, chunkQueue.peek
 // (UDPConn.Close belongs to C01 as well: a refused second Close must not unbind the address a successor socket holds)
